@@ -451,7 +451,7 @@ pub fn worker(tier: &str, shard: u64, nshards: u64, budget_s: f64) -> CrashStats
     // store level: the same question asked of the two table components alone, over deeper operation
     // sequences than the engine-level histories can afford
     let store_deadline = Instant::now() + std::time::Duration::from_secs_f64(if thorough { 300.0 } else { 12.0 });
-    let pc = super::c13::part_crash(if thorough { 4 } else { 2 }, shard, nshards, store_deadline);
+    let pc = super::c13::part_crash(if thorough { 4 } else { 2 }, if thorough { 3 } else { 0 }, shard, nshards, store_deadline);
     if let Some((e, j)) = &pc.violation {
         st.violations.push(Violation { property: "C04".into(), kind: "store-not-recovered-by-rollback".into(), scenario: "crash-store".into(), start: "empty tables".into(), path: vec![j["ops"].as_str().unwrap_or("").to_string(), j["victim"].as_str().unwrap_or("").to_string()], steps: vec![], detail: e.clone() });
     }
@@ -491,6 +491,7 @@ pub fn run(tier: &str, seed: u64) -> i32 {
                     t.victims += pc.victims;
                     t.crash_points += pc.crash_points;
                     t.cases += pc.cases;
+                    t.second_crash_points += pc.second_crash_points;
                     t.complete &= pc.complete;
                 }
                 total.second_crash_points += st.second_crash_points;
@@ -522,7 +523,7 @@ pub fn run(tier: &str, seed: u64) -> i32 {
         "non_commit_victims_lost_only_uncommitted": total.lost_only_uncommitted,
         "second_crash": {"rule": "for every first crash point of ([C], victim C) and ([C], victim finalise) (quick — a smoke-level sub-bound: one case costs two re-opens of 28 RocksDB instances; first recovery height, second recovery to the same height) / of every history and victim (thorough; every recovery height, second recovery to the same and to the lowest eligible height, plus one more block): a second crash in front of every persistent write of the recovery reorg, reopen, reorg again", "crash_points_inside_recovery": total.second_crash_points, "recovered_after_second_crash": total.second_recoveries},
         "heights_at_reopen": total.reopened_heights, "crash_sites": total.sites, "victims": total.victims,
-        "store_level": total.store.as_ref().map(|t| json!({"rule": "BFS over {Set(10,1), Set(10,2), Unset(10), Set(20,1), Next, Skip(W-1 blocks), Commit, Rollback(1)} to depth 2 (quick) / 4 (thorough) from the empty tables and from three seeds in which a key is rewritten more than W blocks after its previous version; in every distinct state each victim in {commit, rollback by 1, rollback by 2} is crashed in front of each of its persistent writes on BlockCachedDatabase + BlockDatabase (real RocksDB), the tables are reopened and rolled back to every eligible block (committed before the crash, not above the victim's target, within W of the highest block), and point reads, range scans, full scan, version cap and the block table are compared with the reference map truncated at that block", "distinct_states": t.states, "depth_completed": t.depth, "victims": t.victims, "crash_points": t.crash_points, "cases": t.cases, "complete": t.complete})),
+        "store_level": total.store.as_ref().map(|t| json!({"rule": "BFS over {Set(10,1), Set(10,2), Unset(10), Set(20,1), Next, Skip(W-1 blocks), Commit, Rollback(1)} to depth 2 (quick) / 4 (thorough) from the empty tables and from three seeds in which a key is rewritten more than W blocks after its previous version; in every distinct state each victim in {commit, rollback by 1, rollback by 2} is crashed in front of each of its persistent writes on BlockCachedDatabase + BlockDatabase (real RocksDB), the tables are reopened and rolled back to every eligible block (committed before the crash, not above the victim's target, within W of the highest block), and point reads, range scans, full scan, version cap and the block table are compared with the reference map truncated at that block", "distinct_states": t.states, "depth_completed": t.depth, "victims": t.victims, "crash_points": t.crash_points, "second_crash_points (the recovery rollback dies too; states up to depth 0 quick incl. the seeds / 3 thorough)": t.second_crash_points, "cases": t.cases, "complete": t.complete})),
         "exhaustive": total.complete, "first_level_exhaustive": !total.first_level_incomplete, "machinery_errors": errors,
     });
     ev.assumptions = vec!["crash model of the statement: the process dies between two RocksDB calls; RocksDB's WAL makes exactly the completed writes visible on reopen; torn or unsynced writes after power loss are outside the property".into()];
